@@ -43,8 +43,18 @@ impl ActTask for Workflow {
         let task = ctx.task();
         let state = task.state();
         if state.is_running() {
-            task.set_state(TaskState::Completed);
-            return Ok(true);
+            // the workflow is reviewed by whatever ends beneath it without a successor: the last step, but also an
+            // act that `setup` started next to the steps. It is done when none of them is open any more
+            // (a hook act does not report back when it ends: it is not waited for)
+            let open = ctx.proc.tasks().iter().any(|t| {
+                !t.state().is_completed()
+                    && !t.is_event_processed()
+                    && t.parent().is_some_and(|p| p.id == task.id)
+            });
+            if !open {
+                task.set_state(TaskState::Completed);
+                return Ok(true);
+            }
         }
 
         Ok(false)
